@@ -3,6 +3,7 @@
 package tcell
 
 import (
+	"bytes"
 	"github.com/gdamore/tcell/v2/terminfo"
 	"strings"
 	"unicode/utf8"
@@ -81,31 +82,45 @@ func H09_rune() {
 	t.curstyle = StyleDefault
 	t.cells.SetDirty(x, 0, true)
 	width := t.drawCell(x, 0)
-	out := t.buf.Bytes()
-	vsymAssert(len(out) >= 1, "a drawn cell writes at least one byte")
-	vsymAssert(width == 1 || width == 2, "a drawn cell occupies one or two columns")
+	out := append([]byte{}, t.buf.Bytes()...)
+	h09Judge(name, r, hasComb, x, width, out, "")
+	// the same cell painted again without a change of content (Sync, a resize, Invalidate):
+	// the cell was marked clean in between, and must come out the same
+	t.buf.Reset()
+	t.cx, t.cy = x, 0
+	t.curstyle = StyleDefault
+	t.cells.SetDirty(x, 0, true)
+	width2 := t.drawCell(x, 0)
+	out2 := t.buf.Bytes()
+	h09Judge(name, r, hasComb, x, width2, out2, " (repainted)")
+	vsymAssert(width2 == width && bytes.Equal(out, out2), "a repaint of an unchanged cell writes the same bytes")
+}
+
+func h09Judge(name string, r rune, hasComb bool, x, width int, out []byte, tag string) {
+	vsymAssert(len(out) >= 1, "a drawn cell writes at least one byte"+tag)
+	vsymAssert(width == 1 || width == 2, "a drawn cell occupies one or two columns"+tag)
 	for i := range out {
 		b := out[i]
-		vsymAssert(vsymAnd(b >= 0x20, b != 0x7f), "no C0 control or DEL byte in a cell's payload")
+		vsymAssert(vsymAnd(b >= 0x20, b != 0x7f), "no C0 control or DEL byte in a cell's payload"+tag)
 		if name != "UTF-8" && name != "KOI8-R" {
-			vsymAssert(!vsymAnd(b >= 0x80, b < 0xa0), "no C1 control byte in a cell's payload (8-bit locale)")
+			vsymAssert(!vsymAnd(b >= 0x80, b < 0xa0), "no C1 control byte in a cell's payload (8-bit locale)"+tag)
 		}
 	}
 	if name == "UTF-8" {
 		// payload is valid UTF-8 holding no control or dangerous format character
 		for i := 0; i < len(out); {
 			c, sz := utf8.DecodeRune(out[i:])
-			vsymAssert(!(c == utf8.RuneError && sz <= 1), "payload is valid UTF-8")
-			vsymAssert(!h09Control(c) || c == utf8.RuneError, "no control or invalid character reaches the terminal")
-			vsymAssert(!h09FormatA(c), "no zero-width or bidi embedding/override control reaches the terminal (U+200B-200F, 202A-202E, 206A-206F, FEFF)")
-			vsymAssert(!h09FormatB(c), "no invisible operator, bidi isolate or Arabic letter mark reaches the terminal (U+2060-2064, 2066-2069, 061C)")
+			vsymAssert(!(c == utf8.RuneError && sz <= 1), "payload is valid UTF-8"+tag)
+			vsymAssert(!h09Control(c) || c == utf8.RuneError, "no control or invalid character reaches the terminal"+tag)
+			vsymAssert(!h09FormatA(c), "no zero-width or bidi embedding/override control reaches the terminal (U+200B-200F, 202A-202E, 206A-206F, FEFF)"+tag)
+			vsymAssert(!h09FormatB(c), "no invisible operator, bidi isolate or Arabic letter mark reaches the terminal (U+2060-2064, 2066-2069, 061C)"+tag)
 			i += sz
 		}
 	}
 	if vsymOr(h09Control(r), h09FormatA(r)) {
-		vsymAssert(len(out) >= 1 && out[0] == ' ', "a control, invalid or zero-width primary rune is shown as a blank")
+		vsymAssert(len(out) >= 1 && out[0] == ' ', "a control, invalid or zero-width primary rune is shown as a blank"+tag)
 		if !hasComb {
-			vsymAssert(len(out) == 1, "a blanked cell is exactly one blank")
+			vsymAssert(len(out) == 1, "a blanked cell is exactly one blank"+tag)
 		}
 	}
 	if x == 1 && width == 2 {
